@@ -40,11 +40,13 @@ VARIABLES pc,      \* "choose" | "built" | "at"
           cfg, cr,
           atoms,   \* supercell atoms <<[a, u]>> (SupercellAtoms)
           sv,      \* sv[<<i, k>>] : set of shortest vectors (numerators over D) from unit atom i to images of supercell atom k
+          cents,   \* centring translations of the unit cell (numerators over D): the primitive cell has |cents| times fewer atoms
+          dir,     \* direction along which the zone centre is approached (Zero3 when the point is not the zone centre)
           x,       \* current point (numerators over cfg.pden)
           K,       \* K(x)   [P, c1, c2]        (NACOps!KofN)
           dK       \* dK/dn_b (x), b = 1..3:  [dP |-> [b -> [j -> [j' -> Mat]]], c1, c2]  value = dP c1 / c2
 
-vars == <<pc, cfg, cr, atoms, sv, x, K, dK>>
+vars == <<pc, cfg, cr, atoms, sv, cents, dir, x, K, dK>>
 
 E3(b) == [i \in I3 |-> IF i = b THEN 1 ELSE 0]
 
@@ -119,8 +121,8 @@ NoK == [P |-> <<>>, c1 |-> 1, c2 |-> 1]
 NoDK == [dP |-> <<>>, c1 |-> 1, c2 |-> 1]
 
 Init ==
-  /\ pc = "choose" /\ cfg = [id |-> 0] /\ cr = <<>> /\ atoms = <<>> /\ sv = <<>>
-  /\ x = Zero3 /\ K = NoK /\ dK = NoDK
+  /\ pc = "choose" /\ cfg = [id |-> 0] /\ cr = <<>> /\ atoms = <<>> /\ sv = <<>> /\ cents = {}
+  /\ dir = Zero3 /\ x = Zero3 /\ K = NoK /\ dK = NoDK
 
 (* the dynamical-matrix object is built: supercell, shortest vectors *)
 BuildWith(g) ==
@@ -129,9 +131,10 @@ BuildWith(g) ==
          ats == NearAtoms(c, g.S, g.box)
      IN  /\ cr' = c /\ atoms' = ats
          /\ sv' = ShortestTable(c, g.S, ats, g.box)
+         /\ cents' = {p[2] : p \in {p \in AutFast(c) : p[1] = Id3}}
   /\ cfg' = g
   /\ pc' = "built"
-  /\ UNCHANGED <<x, K, dK>>
+  /\ UNCHANGED <<dir, x, K, dK>>
 
 Build == \E g \in Cfgs : BuildWith(g)
 
@@ -143,16 +146,41 @@ DifferentiateWith(y) ==
        THEN /\ K' = KofN(cr, ZRec(cfg), ERec(cfg), y)
             /\ dK' = CodeDK(cr, ZRec(cfg), ERec(cfg), y)
        ELSE /\ K' = NoK /\ dK' = NoDK
+  /\ dir' = Zero3
   /\ pc' = "at"
-  /\ UNCHANGED <<cfg, cr, atoms, sv>>
+  /\ UNCHANGED <<cfg, cr, atoms, sv, cents>>
 
 Differentiate == pc = "built" /\ \E y \in cfg.pts : DifferentiateWith(y)
 
-Next == Build \/ Differentiate
+(* the zone centre approached along d (run_qpoints(nac_q_direction=d), GroupVelocity.run(perturbation=d)):  *)
+(* D(t d) = D_plain(t d) + (4 pi f/V) K(d) for every t > 0, because K is homogeneous of degree 0; the slope  *)
+(* of the spectrum along d is that of D_plain with K(d) held fixed (ReqEulerGamma: d . grad K (d) = 0)       *)
+GammaAlongWith(d) ==
+  /\ pc = "built" /\ cfg.nac
+  /\ x' = Zero3 /\ dir' = d
+  /\ K' = KofN(cr, ZRec(cfg), ERec(cfg), d)
+  /\ dK' = CodeDK(cr, ZRec(cfg), ERec(cfg), d)
+  /\ pc' = "gamma"
+  /\ UNCHANGED <<cfg, cr, atoms, sv, cents>>
+
+GammaAlong == pc = "built" /\ cfg.nac /\ \E d \in cfg.dirs : GammaAlongWith(d)
+
+Next == Build \/ Differentiate \/ GammaAlong
 Spec == Init /\ [][Next]_vars
 
 -----------------------------------------------------------------------------
-TypeOK == pc \in {"choose", "built", "at"}
+TypeOK == pc \in {"choose", "built", "at", "gamma"}
+
+(* the primitive cell phonopy is given has |cents| times fewer atoms than the unit cell *)
+PreCentringGroup ==
+  pc = "built" => /\ Zero3 \in cents
+                  /\ NAtoms(cr) % Cardinality(cents) = 0
+                  /\ Cardinality(cents) = cfg.ncent
+ReqEulerGamma ==
+  pc = "gamma" =>
+     /\ Qn(ERec(cfg), dir) > 0
+     /\ \A j, jp \in 1..NAtoms(cr) : \A l, m \in I3 :
+           dir[1] * dK.dP[1][j][jp][l][m] + dir[2] * dK.dP[2][j][jp][l][m] + dir[3] * dK.dP[3][j][jp][l][m] = 0
 
 (* the supercell is complete and the search box for images was large enough *)
 PreSupercellComplete == pc = "built" => Len(atoms) = NAtoms(cr) * Abs(Det(cfg.S)) /\ RepsComplete(cfg.S, cfg.box)
